@@ -7,7 +7,8 @@ import copy
 
 from checks import common, hist_common
 
-STRS = ['', 'a', 'b', 'ab', 'ba', 'abc', 'é', 'ü中', 'x' * 40, ' ', '0', '1', 'label', 'None']
+STRS = ['', 'a', 'b', 'ab', 'ba', 'abc', 'é', 'ü中', 'x' * 40, ' ', '0', '1', 'label', 'None', '1.0', '01',
+        'L' * 1100 + 'a', 'L' * 1100 + 'b', '{"k": [' + '1, ' * 700 + '2]}', '{"k": [' + '1, ' * 700 + '3]}']
 
 
 def gen_item(rng, universe):
